@@ -43,8 +43,8 @@ ASSUMPTIONS = [
     "mechanical boundary condition is Dirichlet on every boundary face",
     "coupling coefficient is a scalar (float / int) or a constant isotropic SecondOrderTensor",
 ]
-REQUIRED = {"dim2": 0.2, "dim3": 0.2, "alpha-float": 0.3, "alpha-tensor": 0.3, "two-keys": 0.2,
-            "field-general": 0.15, "field-rotation": 0.05, "kind-tri": 0.02, "kind-tet": 0.01,
+REQUIRED = {"dim2": 0.2, "dim3": 0.2, "alpha-float": 0.2, "alpha-tensor": 0.2, "two-keys": 0.15,
+            "field-general": 0.15, "field-rotation": 0.02, "kind-tri": 0.02, "kind-tet": 0.01,
             "kind-poly": 0.02, "kind-polyx": 0.01, "perturbed": 0.05}
 
 _f = lambda lo, hi: st.floats(lo, hi, allow_nan=False, allow_infinity=False, allow_subnormal=False, width=64)  # noqa: E731
